@@ -8,8 +8,8 @@
    examples and the correspondence check. *)
 From Coq Require Import ZArith String List Bool Lia.
 From Verif Require Import C17.Model C17.Spec C17.Mputil C17.Proofs C17.ProofsOpts C17.ProofsGeom
-     C17.ProofsRoute C17.ProofsJoin C17.ProofsArea C17.ProofsCarry C17.ProofsGeoEq C17.ProofsDup C17.Examples C17.ProofsWitness.
-From Verif Require C18.Model C18.Spec C18.Proofs C18.Api Geo.Model.
+     C17.ProofsRoute C17.ProofsJoin C17.ProofsArea C17.ProofsCarry C17.ProofsGeoEq C17.ProofsDup C17.ProofsGeoBuild C17.ProofsGeoScene C17.Examples C17.ProofsWitness.
+From Verif Require C18.Model C18.Spec C18.Proofs C18.Api Geo.Model Geo.Rings Geo.Orient Geo.Build Geo.Collect Properties.C16.
 From VerifGen Require Import GenTags.
 Import ListNotations.
 Open Scope Z_scope.
@@ -266,6 +266,81 @@ Theorem C17_mputil_ring_is_geo_ring : forall o ms,
   Geo.Model.ring_of o (tg ms) = Mputil.ring_of o ms.
 Proof. exact ring_of_geo. Qed.
 Print Assumptions C17_mputil_ring_is_geo_ring.
+
+(* ---------------------------------------------------------------------------------------
+   4b. One closed executable model.  With the executable Join / Ring (= C16's, above), buildPolygon
+      of the C17 model IS C16's model Geo.Model.build_polygon on the same nodes, ways and members:
+      same geometry on the single-outer and the multi-outer path, for either setting of
+      IncludeInvalidPolygons, and the same tainted flag.  [convert Mputil.join Mputil.ring_of]
+      (= C17/Mputil.convert_exec, what the correspondence run evaluates) therefore has no
+      abstract part. *)
+Theorem C17_buildPolygon_is_geo_build_polygon : forall o d r,
+  Geo.Model.build_polygon (inclInvalid o) (gnodes d) (gways d) (map gmem (r_members r)) =
+  (ggeom (option_map f_geom (snd (poly_result Mputil.join Mputil.ring_of o d r))),
+   existsb ps_taint (map (poly_step d (r_tags r)) (r_members r))).
+Proof. exact poly_result_is_geo. Qed.
+Print Assumptions C17_buildPolygon_is_geo_build_polygon.
+
+(* Corollary (C16's recovery theorem, Geo.Collect.build_polygon_recovers = C16_build_polygon_recovers,
+   imported, not re-proved): for a multipolygon/boundary relation of the data whose members satisfy
+   C16's scene hypotheses, the conversion emits a feature — under the relation's id, or under the
+   adopted way's id for an old-style relation — whose geometry is exactly the ground-truth polygon
+   set: up to order, for each (outer, holes) of the scene one polygon whose first ring is the outer
+   ring, closed, complete, counter-clockwise and whose other rings are exactly its own holes,
+   clockwise; not tainted; whatever IncludeInvalidPolygons says. *)
+Theorem C17_convert_multipolygon_geometry : forall o d r ds (sc : Geo.Build.gscene),
+  In r (relations d) -> is_mp r = true ->
+  sc <> [] ->
+  NoDup (concat (Geo.Build.s_outers sc)) -> NoDup (concat (Geo.Build.s_holes sc)) ->
+  Forall (fun ring => (3 <= List.length ring)%nat) (Geo.Build.s_outers sc ++ Geo.Build.s_holes sc) ->
+  (forall ring, In ring (Geo.Build.s_outers sc ++ Geo.Build.s_holes sc) ->
+                Geo.Orient.shoelace (Geo.Rings.close_ring ring) <> 0) ->
+  Geo.Build.contained sc ->
+  Forall2 (Geo.Collect.member_ok (gnodes d) (gways d) (Geo.Build.s_outers sc) (Geo.Build.s_holes sc))
+          (map gmem (r_members r)) ds ->
+  Geo.Collect.is_cut_lines (map Geo.Rings.close_ring (Geo.Build.s_outers sc)) (Geo.Collect.outer_lines ds) ->
+  Geo.Collect.is_cut_lines (map Geo.Rings.close_ring (Geo.Build.s_holes sc)) (Geo.Collect.inner_lines ds) ->
+  exists f mp sc',
+    In f (convert Mputil.join Mputil.ring_of o d) /\
+    snd (rel_result Mputil.join Mputil.ring_of o d r) = Some f /\
+    (fkey f = (TRel, r_id r) \/ (exists x, adopts d r = [x] /\ fkey f = (TWay, x))) /\
+    feature_polys f = Some mp /\ f_tainted f = false /\
+    Permutation.Permutation sc' sc /\ Forall2 Geo.Build.poly_recovered sc' mp /\
+    List.length (concat (map (@tl (list pt)) mp)) = List.length (Geo.Build.s_holes sc).
+Proof. exact convert_multipolygon_geometry. Qed.
+Print Assumptions C17_convert_multipolygon_geometry.
+
+(* non-vacuity: C16's own example scene (Properties/C16.v ex8), as C17 data *)
+Example C17_convert_multipolygon_nonvacuous :
+  gnodes d_ex8 = Properties.C16.ex8_nodes /\ gways d_ex8 = Properties.C16.ex8_ways /\
+  map gmem (r_members r_ex8) = Properties.C16.ex8_members /\
+  exists f, snd (rel_result Mputil.join Mputil.ring_of o0 d_ex8 r_ex8) = Some f /\
+            f_geom f = GPoly [[(1,1); (9,1); (9,9); (1,9); (1,1)]; [(3,3); (3,5); (5,5); (3,3)]] /\
+            fkey f = (TRel, 1) /\ f_tainted f = false.
+Proof.
+  split; [reflexivity|]. split; [reflexivity|]. split; [reflexivity|].
+  eexists. split; [vm_compute; reflexivity|]. repeat split.
+Qed.
+
+Example C17_convert_multipolygon_hypotheses_met :
+  exists f mp sc', snd (rel_result Mputil.join Mputil.ring_of o0 d_ex8 r_ex8) = Some f /\
+                   feature_polys f = Some mp /\ Forall2 Geo.Build.poly_recovered sc' mp.
+Proof.
+  destruct (convert_multipolygon_geometry o0 d_ex8 r_ex8 Properties.C16.ex8_descs Properties.C16.ex8_scene)
+    as [f [mp [sc' [_ [H1 [_ [H2 [_ [_ [H3 _]]]]]]]]]].
+  - left. reflexivity.
+  - reflexivity.
+  - discriminate.
+  - cbn. repeat (constructor; [cbn; intuition congruence|]). constructor.
+  - cbn. repeat (constructor; [cbn; intuition congruence|]). constructor.
+  - cbn. repeat (constructor; [cbn; lia|]). constructor.
+  - intros ring [<-|[<-|[]]]; vm_compute; discriminate.
+  - exact Properties.C16.ex8_contained.
+  - exact Properties.C16.ex8_members_ok.
+  - exact Properties.C16.ex8_cut_outer.
+  - exact Properties.C16.ex8_cut_inner.
+  - exists f, mp, sc'. auto.
+Qed.
 
 Example C17_route_nonvacuous :
   exists f, nth_error (convert Mputil.join Mputil.ring_of o0 d_rich) 0 = Some f /\
